@@ -158,6 +158,20 @@ Theorem C03_compact_column_exact : forall (A : Type) (nil : A) (maxRows : nat) (
 Proof. exact (@compact_col_correct). Qed.
 Print Assumptions C03_compact_column_exact.
 
+(* the same with the repaired padding (as many nils as the chunk's time segment has rows, props/C03/fix3.patch): exact for every
+   chunk whose segments are not longer than max-rows - the full-inner-segments premise is gone, so files written under a
+   smaller max-rows-per-segment are compacted correctly; on well-formed chunks the repair changes nothing *)
+Theorem C03_compact_column_exact_repaired : forall (A : Type) (nil : A) (maxRows : nat) (srcs : list (src A)),
+  0 < maxRows -> srcs <> [] -> Forall (bounded_src maxRows) srcs ->
+  concat (compact_col_actual nil maxRows srcs) = concat (map (expand nil) srcs).
+Proof. exact (@compact_col_actual_correct). Qed.
+Print Assumptions C03_compact_column_exact_repaired.
+
+Theorem C03_padding_repair_conservative : forall (A : Type) (nil : A) (maxRows : nat) (srcs : list (src A)),
+  Forall (wf_src maxRows) srcs -> compact_col_actual nil maxRows srcs = compact_col nil maxRows srcs.
+Proof. exact (@actual_eq_counter_on_wf). Qed.
+Print Assumptions C03_padding_repair_conservative.
+
 (* every column of the series (a field of any type, the time column) is cut into segments at the same rows: addressing
    a cell by (segment, offset) hits the same row in every column, so no value moves to another timestamp *)
 Theorem C03_compact_columns_aligned : forall (A B : Type) (nilA : A) (nilB : B) (maxRows : nat)
